@@ -18,8 +18,8 @@ from vf.tape import RecordingFile
 ID = "C10"
 LEVEL = "exploration"
 RULE = ("messages over the JSON-native domain (boundary integers/floats, control/astral/escape-requiring text, nesting up to 12 quick / "
-        "60 thorough) and the documented rich types (Path, date, datetime, time, set, complex, NaN/inf, tuple, custom json_default "
-        "extensions) are offered to a binary and a text FileDestination wrapping recording file objects, directly and through "
+        "60 thorough) and the documented rich types (Path, date, datetime incl. UTC offsets, time, set, complex, NaN/inf, tuple, dataclasses, Enum/IntEnum "
+        "members, UUIDs, custom json_default extensions) are offered to a binary and a text FileDestination wrapping recording file objects, directly and through "
         "add_destinations + the logging API. Oracle: the op tape is (write flush)* after the zero-length mode probe, one pair per "
         "message; each write is one newline-terminated line without inner newline, valid UTF-8, decoded by the stdlib json module "
         "to an object equal to the message (strict types, -0.0 sign, exact 64-bit integers; rich types in their documented encoding); "
@@ -39,6 +39,26 @@ class Custom(object):
 class Custom2(object):
     def __init__(self, v):
         self.v = v
+
+
+import dataclasses as _dc
+import enum as _enum
+
+
+@_dc.dataclass
+class RichRecord(object):
+    name: str
+    payload: object
+
+
+class RichColour(_enum.Enum):
+    RED = "red"
+    BLUE = 3
+
+
+class RichLevel(_enum.IntEnum):
+    LOW = 1
+    HIGH = 2**40
 
 
 def default_a(o):
@@ -79,7 +99,23 @@ def plan(tier, seed):
 
 def gen_rich(rng, which):
     """Returns (value, expected decoded image or callable checker)."""
-    r = rng.randrange(11)
+    r = rng.randrange(15)
+    if r == 11:
+        # dataclasses (named in json_default's documentation): an object of their fields
+        v = gen.gen_value(rng, 1)
+        name = "n%d" % rng.randint(0, 9)
+        return RichRecord(name, v), {"name": name, "payload": v}
+    if r == 12:
+        m = rng.choice(list(RichColour) + list(RichLevel))
+        return m, m.value
+    if r == 13:
+        import uuid
+        u = uuid.UUID(int=rng.getrandbits(128))
+        return u, str(u)
+    if r == 14:
+        d = datetime.datetime(rng.randint(1, 9999), rng.randint(1, 12), rng.randint(1, 28), rng.randint(0, 23), rng.randint(0, 59), rng.randint(0, 59),
+                              rng.choice([0, 123456]), tzinfo=datetime.timezone(datetime.timedelta(minutes=rng.choice([-720, -90, 0, 330, 840]))))
+        return d, d.isoformat()
     if which == "c" and r in (0, 1, 5, 6):
         if r in (0, 1):
             p = pathlib.Path(rng.choice(["/tmp/x", "rel/p.txt", "/a b/é"]))
